@@ -34,13 +34,6 @@ Theorem C05_caller_identity : forall A uid gid s (body : pstate -> res A * pstat
   exists c r0 s1, body (with_creds_of s (caller_creds uid gid)) = (r0, s1) /\
                   with_creds uid gid s body = (r0, with_creds_of s1 c).
 Proof. exact with_creds_from_root. Qed.
-Theorem C05_descriptor_before_creds : shape_descriptor_before_set_creds = true.
-Proof. exact descriptor_before_creds. Qed.
-
-(* translated from the current source: create() hands the request flags unmodified to open_inode (existing file)
-   and the writeback-adjusted ones to create_file_excl, as Model/Passthrough.v transcribes *)
-Theorem C05_create_flag_use : shape_create_flag_use = true.
-Proof. exact create_flag_use. Qed.
 
 (* ownership, up to the Entry returned to the client: an object created by mkdir / mknod / symlink for a caller
    is owned by that caller (gid: the caller's unless the directory is setgid).
@@ -129,8 +122,6 @@ Print Assumptions C05_reply_partial.
 Print Assumptions C05_creds_restored.
 Print Assumptions C05_creds_restored_history.
 Print Assumptions C05_caller_identity.
-Print Assumptions C05_descriptor_before_creds.
-Print Assumptions C05_create_flag_use.
 Print Assumptions C05_owner.
 Print Assumptions C05_owner_calls.
 Print Assumptions C05_owner_create_partial.
